@@ -39,7 +39,13 @@ def tla_set(items):
     return "{" + ",".join(tla_val(x) for x in items) + "}"
 
 
+class Raw(str):
+    """a TLA+ expression passed through verbatim as a constant's value"""
+
+
 def tla_val(v):
+    if isinstance(v, Raw):
+        return str(v)
     if isinstance(v, bool):
         return "TRUE" if v else "FALSE"
     if isinstance(v, str):
